@@ -6,7 +6,8 @@ Open Scope string_scope.
 
 (* (file, function, line, iterated expression, classification) of every iteration over a set-typed value *)
 Definition set_iteration_sites : list (string * string * nat * string * iter_kind) :=
-  [("sidemantic/sql/generator.py", "generate", 437, "all_models", Sorted);
+  [("sidemantic/sql/generator.py", "generate", 402, "pushdown_filters.items()", Irrelevant);
+   ("sidemantic/sql/generator.py", "generate", 437, "all_models", Sorted);
    ("sidemantic/sql/generator.py", "collect_models_from_metric", 617, "metric.get_dependencies(self.graph)", Sorted);
    ("sidemantic/sql/generator.py", "collect_models_from_metric", 622, "self._extract_models_from_sql(metric.sql)", Sorted);
    ("sidemantic/sql/generator.py", "collect_models_from_metric", 627, "self._extract_models_from_sql(metric.sql)", Sorted);
@@ -21,6 +22,7 @@ Definition set_iteration_sites : list (string * string * nat * string * iter_kin
    ("sidemantic/sql/generator.py", "_build_model_cte", 1200, "all_metric_columns", Irrelevant);
    ("sidemantic/sql/generator.py", "_build_model_cte", 1206, "measures_needed", Sorted);
    ("sidemantic/sql/generator.py", "_needs_preaggregation_for_fanout", 1369, "enumerate(metric_model_list)", Irrelevant);
+   ("sidemantic/sql/generator.py", "_generate_with_preaggregation", 1463, "pushdown_by_model", Sorted);
    ("sidemantic/sql/generator.py", "_build_metric_sql", 2216, "dependencies", Sorted);
    ("sidemantic/sql/generator.py", "collect_leaf_base_metrics", 2585, "dependencies", Sorted);
    ("sidemantic/sql/generator.py", "build_time_comparison_base_expression", 2729, "metric_obj.get_dependencies(self.graph, resolved_context)", Sorted)].
